@@ -88,7 +88,7 @@ class P:
             if k < 0.66:
                 return [X.P(n, "#")]
             if k < 0.8:
-                return [X.A(X.L(rnd.choice(["%s=1", "%s++", "%s+=2", "--%s", "%s=%s+1", "%s", "1/0", "%s=1/0", "(%s=3)*0"]).replace("%s", rnd.choice(["x", "y", "z"]))))]
+                return [X.A(X.L(rnd.choice(["%s=1", "%s++", "%s+=2", "--%s", "%s=%s+1", "%s", "1/0", "%s=1/0", "(%s=3)*0", "(1 ? %s : z) = 7", "(0 ? z : %s)++", "(%s) += 2"]).replace("%s", rnd.choice(["x", "y", "z"]))))]
             if k < 0.9:
                 return [X.Q('"', *inner())]
             return [X.L(rnd.choice(["lit", "", "~", "a*b"]))] + inner()
@@ -99,7 +99,17 @@ class P:
 
         def eop():
             v = rnd.choice(["x", "y", "z"]); u = rnd.choice(["x", "y", "z"])
-            e = rnd.choice(["%s=1", "%s++", "++%s", "%s+=%s", "%s=%s=2", "1/0", "%s=1/0", "%s", "%s = %s + 1", "09", "%s=09", "%s=(%s=4)+1", "%s--*0", "1 ? %s=5 : 0"])
+            if rnd.random() < 0.35:
+                from props import c11 as A
+                # (syntactically valid expressions only: on a syntax error the rule actions of the part already parsed have
+                #  run, which C11 and C20 do not speak about; the model evaluates nothing in that case)
+                ex = A.gen(rnd, rnd.choice([2, 3, 4]))
+                toks = ex.replace("(", " ").replace(")", " ").split()
+                if any(t in ("0xz", "1a") for t in toks):
+                    ex = "x + 1"
+                return "E:%s" % hx(A.respace(rnd, ex))
+            e = rnd.choice(["%s=1", "%s++", "++%s", "%s+=%s", "%s=%s=2", "1/0", "%s=1/0", "%s", "%s = %s + 1", "09", "%s=09", "%s=(%s=4)+1", "%s--*0", "1 ? %s=5 : 0",
+                            "(1 ? %s : %s) = 7", "(0 ? %s : %s)++", "--(%s ? %s : z)", "(%s ? %s : z) *= 5", "(%s) = 3", "((%s))++", "(%s, %s) = 1", "-%s = 2", "%s++ = 1", "(%s=1) = 2"])
             return "E:%s" % hx(e.replace("%s", v, 1).replace("%s", u))
 
         xcases = []
